@@ -269,3 +269,63 @@ def gen_subhypergraph(sim, kinds=("H",)):
     return {"uid": g.next_uid(), "op": "subhypergraph", "src": src, "new": free[0],
             "nodes": None if nodes is None else enc(nodes), "edges": None if edges is None else enc(edges),
             "keep_isolates": g.r.random() < 0.6}
+
+
+# ---------------------------------------------------------------------------
+def gen_big_complex(sim, routes):
+    g = sim.gen
+    return {"uid": g.next_uid(), "op": "big_complex", "k": g.r.choice([9, 11, 11, 12, 13]), "route": g.r.choice(routes),
+            "argseed": g.r.randrange(1 << 30)}
+
+
+def do_big_complex(sim, rec, props):
+    """a self-contained experiment outside the world of modelled actors: one closed simplex on k
+    nodes (2**k - k - 1 simplices; size thresholds of the bulk paths), attributes on a few faces,
+    sent through one route; every simplex must come back under its own ID with its attributes."""
+    import pickle
+    import random
+    w = sim.world
+    xgi = sim.xgi
+    k, route = rec["k"], rec["route"]
+    r = random.Random(rec["argseed"])
+    with warnings.catch_warnings():
+        warnings.simplefilter("ignore")
+        S = xgi.SimplicialComplex()
+        S.add_simplex(list(range(k)))
+        ids = list(S.edges)
+        marked = r.sample(ids, 6)
+        S.set_edge_attributes({e: {"mark": i} for i, e in enumerate(marked)})
+        S.set_node_attributes({0: {"first": True}})
+        S["name"] = "big"
+        w.stats["op:big_complex." + route] += 1
+        fake = dict(rec, op="big_complex:" + route)
+        try:
+            if route == "hif_dict":
+                R = xgi.from_hif_dict(xgi.to_hif_dict(S))
+            elif route == "via_H":
+                R = xgi.SimplicialComplex(xgi.Hypergraph(S))
+            elif route == "copy":
+                R = S.copy()
+            elif route == "ctor":
+                R = xgi.SimplicialComplex(S)
+            else:
+                R = pickle.loads(pickle.dumps(S))
+        except Exception as ex:  # noqa
+            w.find(props, "big_complex_route_failed", fake, "SC", f"k={k}: {type(ex).__name__}: {ex}")
+            return None
+        want = S.edges.members(dtype=dict)
+        got = R.edges.members(dtype=dict)
+        if got != want:
+            bad = [e for e in want if got.get(e) != want[e]]
+            w.find(props, "big_complex_ids_not_preserved", fake, "SC",
+                   f"{route}, one closed simplex on {k} nodes: {len(bad)} of {len(want)} simplices do not come back "
+                   f"under their own ID (e.g. {bad[:3]!r}); {len(got)} simplices in the result")
+            return None
+        for e in marked:
+            if dict(R.edges[e]) != dict(S.edges[e]):
+                w.find(props, "big_complex_attrs_not_preserved", fake, "SC",
+                       f"{route}, k={k}: simplex {e!r}: {dict(R.edges[e])!r} != {dict(S.edges[e])!r}")
+                return None
+        if dict(R.nodes[0]) != {"first": True} or R._net_attr.get("name") != "big":
+            w.find(props, "big_complex_attrs_not_preserved", fake, "SC", f"{route}, k={k}: node / network attributes")
+    return None
